@@ -21,6 +21,8 @@ def llm_fn(task, prompt, i):
     t = str(task)
     d = rw.digest(prompt)
     if "generate_user_intent" in t:
+        if "look it up" in prompt.rsplit('user "', 1)[-1]:
+            return "  request lookup"
         return "  ask"
     if "generate_next_step" in t:
         return "  bot inform capabilities"
@@ -30,6 +32,9 @@ def llm_fn(task, prompt, i):
 
 
 def build(dialog):
+    if dialog == "rails":
+        # input / output rails and a dialog action that take context variables as action parameters
+        return rw.v1_world(in_order=["in1"], out_order=["out1"], dialog=True, exceptions=False)
     if dialog:
         return World(rw.V1_DIALOG, "rails:\n  dialog:\n    single_call:\n      enabled: False\n")
     return World("", "rails:\n  dialog:\n    single_call:\n      enabled: False\n")
@@ -51,7 +56,8 @@ def run_request(world, history, step):
         msgs = [dict(m) for m in step[1]]
     turn = rw.run_turn(world, msgs, {}, llm_fn)
     reply = turn.reply if isinstance(turn.reply, dict) else {"role": "assistant", "content": str(turn.text)}
-    obs = (turn.text, tuple(c["prompt"] for c in turn.llm_calls), repr(turn.exc) if turn.exc else None)
+    obs = (turn.text, tuple(c["prompt"] for c in turn.llm_calls), repr(turn.exc) if turn.exc else None,
+           tuple((a.get("rail") or a.get("action"), a.get("text")) for a in turn.actions))
     return msgs + [reply], obs
 
 
@@ -69,8 +75,8 @@ def conv_sets(dialog):
     computed by first serving the victim conversation alone."""
     sets = []
     probe = build(dialog)
-    _, (r_x, _, _) = run_request(probe, [], ("nat", "x"))
-    _, (r_ab, _, _) = run_request(probe, [], ("nat", "a:b"))
+    _, (r_x, _, _, _) = run_request(probe, [], ("nat", "x"))
+    _, (r_ab, _, _, _) = run_request(probe, [], ("nat", "a:b"))
     # 1. role / separator collision with another conversation's stored key
     A = Conv("A", [("nat", "x"), ("nat", "second")])
     B = Conv("B", [("hist", [{"role": "user", "content": f"x:{r_x}"}, {"role": "assistant", "content": "s"}, {"role": "user", "content": "t"}])])
@@ -98,6 +104,10 @@ def conv_sets(dialog):
     L = Conv("L", [("hist", [{"role": "context", "content": {"k": "v"}}, {"role": "user", "content": "u1"}]), ("nat", "u2")])
     M = Conv("M", [("hist", [{"role": "user", "content": '{"k": "v"}'}, {"role": "assistant", "content": "u1"}, {"role": "user", "content": "u2"}])])
     sets.append(("context-looking-user-text", [L, M]))
+    # 7. conversations that reach the dialog action with their own text
+    N = Conv("N", [("nat", "look it up n1"), ("nat", "look it up n2")])
+    O = Conv("O", [("nat", "look it up o1"), ("nat", "hello")])
+    sets.append(("action-parameters-from-context", [N, O]))
     return sets
 
 
@@ -143,8 +153,10 @@ def explore(task):
                     what.append(f"LLM prompt differs: shared ...{a!r} vs isolated ...{b!r}")
                 if obs[2] != exp[2]:
                     what.append(f"exception {obs[2]} vs {exp[2]}")
+                if obs[3] != exp[3]:
+                    what.append(f"actions were called with {obs[3]!r}, alone with {exp[3]!r}")
                 res["viol"].append((f"cross-conversation-influence:{name}",
-                                    f"[{'dialog' if dialog else 'general'}] request {c.name}{k} after {trail[:-1]}: " + "; ".join(what),
+                                    f"[{dialog if isinstance(dialog, str) else 'dialog' if dialog else 'general'}] request {c.name}{k} after {trail[:-1]}: " + "; ".join(what),
                                     {"engine": "E3-world", "prop": "C15", "dialog": dialog, "set": name, "set_index": set_index, "order": list(order)}))
                 break
     seen, uniq = set(), []
@@ -224,7 +236,7 @@ def run(rep, tier):
     import vf.engines.world  # noqa
 
     n_sets = len(conv_sets(False))
-    ts = [(d, i) for d in (False, True) for i in range(n_sets)]
+    ts = [(d, i) for d in (False, True, "rails") for i in range(n_sets)]
     agg = {}
     for r in par.pmap(explore, ts):
         for k, v in r.items():
